@@ -435,6 +435,9 @@ def handle (op : String) (args : List String) : Option String :=
   | "c10.geo" => handleGeo args
   | "c10.box" => handleBox args
   | "c10.extrude" => handleExtrude args
+  | "c10.revolve" => handleRevolve args
+  | "c10.wedge" => handleWedge args
+  | "c10.extrudes" => handleExtrudeScalar args
   | "c10.addr" => handleAddr args
   | "c10.face" => handleFace args
   | _ => none
